@@ -12,7 +12,7 @@ from __future__ import annotations
 from ..facts import registry_model
 from ..minieval import Unsupported
 from ..model import Undecided
-from ..snippet import lex, run_statement
+from ..snippet import first_match, lex, run_statement
 
 DECLARATORS = [
     "void\t*ft_lstmap(t_list *lst, void *(*f)(void *), void (*del)(void *))",
@@ -123,3 +123,73 @@ def rule_chained_comments(run, prog, rid="R-3.8"):
         raise Undecided(f"IsComment / CheckCommentLineLen is outside the evaluable subset: {e}")
     run.ob(rid, "rules/check_comment_line_len.py::CheckCommentLineLen.run::every-claimed-comment", bad is None,
            (f"{bad[0]}: {bad[1]} {bad[2]}: an over-long comment line goes unreported") if bad else "", None, evaluations=n)
+
+
+def rule_brace_tail(run, prog, rid="R-3.9"):
+    run.rule(rid, "the function-length verdict at the closing brace does not depend on what follows the brace on its line: "
+             "CheckBrace.run, interpreted at `}` of a Function scope whose line counter is 20 .. 30, reports TOO_MANY_LINES for the "
+             "same counter values whether the brace is followed by the newline, a blank, a tab, a // comment or a block comment", floor=1)
+    from ..stubrun import RUNTIME_ERRORS, StubContext, line_tokens, run_rule
+    m = prog.method("CheckBrace", "run")
+    run.require(m is not None, "anchor vanished: CheckBrace.run")
+    tails = {"newline": [], "blank": ["SPACE"], "tab": ["TAB"], "// comment": ["SPACE", ("COMMENT", "// end")],
+             "block comment": ["TAB", ("MULT_COMMENT", "/* end */")]}
+    verdicts = {}
+    n = 0
+    try:
+        for tname, tail in tails.items():
+            got = []
+            for lines in range(20, 31):
+                n += 1
+                toks = line_tokens(["RBRACE"] + tail + ["NEWLINE"], 40, 1)
+                sc = StubContext(prog, toks, history=("IsFuncDeclaration", "IsBlockStart", "IsExpressionStatement", "IsBlockEnd"),
+                                 scope="Function", scope_attrs={"lines": lines, "indent": 1, "lvl": 1})
+                try:
+                    run_rule(prog, "CheckBrace", sc)
+                except RUNTIME_ERRORS:
+                    pass
+                got.append("TOO_MANY_LINES" in sc.codes())
+            verdicts[tname] = got
+    except Unsupported as e:
+        raise Undecided(f"CheckBrace.run is outside the evaluable subset: {e}")
+    ref = verdicts["newline"]
+    diff = next((t for t, v in verdicts.items() if v != ref), None)
+    some = any(ref) and not all(ref)
+    run.ob(rid, f"{m.key}::verdict-independent-of-tail", diff is None and some,
+           (f"with the brace followed by a {diff} the counter values 20..30 give TOO_MANY_LINES {verdicts[diff]}, followed by the "
+            f"newline {ref}: an over-long function escapes when its closing brace carries a comment or a stray blank") if diff
+           else ("" if some else f"TOO_MANY_LINES is reported for {ref} over the counter values 20..30: no threshold in reach"),
+           m.node, evaluations=n)
+
+
+def rule_statement_extent(run, prog, rid="R-7.7"):
+    run.rule(rid, "a statement does not reach into the next line: for two-line fragments of a function body whose first line is a "
+             "complete statement (calls followed by -> / [ ] / = and a second call, subscripts of calls, plain calls and "
+             "assignments), the primary that Registry.run would let claim the first line -- primaries interpreted in priority "
+             "order -- claims at most the tokens of that line", floor=1)
+    firsts = [
+        "\tlast(*lst)->next = new_node(v);\n", "\ttab(v)[0] = lst[v];\n", "\tf(a);\n", "\tf(a)[1] = g(b)[2];\n", "\tx = f(a);\n",
+        "\tp->next = (t_list *)malloc(sizeof(t_list));\n", "\tg(h(a), b)->c = d(e);\n", "\tt[i] = u[j];\n", "\t(*fn)(a);\n",
+        "\treturn (f(a)[0]);\n",
+    ]
+    seconds = ["\tif (v)\n", "\tx = 1;\n", "\tg(b);\n"]
+    bad, n = None, 0
+    try:
+        for a in firsts:
+            for b in seconds:
+                n += 1
+                toks = lex(prog, a + b, first_line=14)
+                line1 = next(i for i, t in enumerate(toks) if t.__dict__["type"] == "NEWLINE") + 1
+                name, o = first_match(prog, toks, scope="Function", history=("IsFuncDeclaration", "IsBlockStart", "IsVarDeclaration", "IsEmptyLine"),
+                                      scope_attrs={"indent": 1, "lvl": 1})
+                if name is None or o is None:
+                    continue                      # nothing recognises it: the registry raises, nothing is skipped
+                if o.hang and bad is None:
+                    bad = (a.strip(), b.strip(), name, "does not terminate")
+                elif o.matched and o.claimed > line1 and bad is None:
+                    bad = (a.strip(), b.strip(), name, f"claims {o.claimed} tokens, the line has {line1}")
+    except Unsupported as e:
+        raise Undecided(f"a primary is outside the evaluable subset: {e}")
+    run.ob(rid, "registry.py::Registry.run::statement-extent", bad is None,
+           (f"`{bad[0]}` followed by `{bad[1]}`: {bad[2]} {bad[3]}: the next statement is consumed as part of this one and never "
+            f"examined on its own") if bad else "", None, evaluations=n)
